@@ -391,6 +391,8 @@ def run_entry(case, R):
                 pass
             r2 = fn(*args, **kw) if not o.get('exempt') else r1
     except Exception as e:
+        if not instr.is_library_exception(e):
+            raise
         R.fail('C20.repeat', f'repeat/raised/{name}', f'second identical call of {name} raised {type(e).__name__}')
         return
     R.check('C20.repeat', same(r1, r2), f'repeat/differs/{name}', f'repeating {name} with identical arguments gives a different result')
@@ -420,6 +422,8 @@ def run_entry(case, R):
         else:
             R.fail('C20.purity', f'purity/readonly-raised/{name}', f'{name} raised ValueError only for read-only arguments: {str(e)[:100]}')
     except Exception as e:
+        if not instr.is_library_exception(e):
+            raise
         R.fail('C20.purity', f'purity/readonly-raised/{name}', f'{name} raised {type(e).__name__} only for read-only arguments: {str(e)[:100]}')
     finally:
         for a in ro:
@@ -488,11 +492,15 @@ def run_history(case, R):
         try:
             call(tr, other)
         except Exception as e:
+            if not instr.is_library_exception(e):
+                raise
             R.count(f'earlier fit raised {type(e).__name__}')
     try:
         a = call(tr, target)
         b = call(models.trainer(kind, **target.tkw), target)
     except Exception as e:
+        if not instr.is_library_exception(e):
+            raise
         R.undecided('C20.history', f'fit raised {type(e).__name__}')
         return
     R.check('C20.history', same(a, b), f'history/{kind}', f'a reused {kind} trainer (after {case["n_before"]} other fits) gives a different model than a fresh one', n_before=case['n_before'])
@@ -528,6 +536,8 @@ def run_split(case, R):
             for p in parts:
                 m = scen.fit(s, iterations=p) if m is None else models.fit('cacgmm', s.data, init=m, iterations=p, **s.opts)
     except Exception as e:
+        if not instr.is_library_exception(e):
+            raise
         R.undecided('C20.split', f'fit raised {type(e).__name__}')
         return
     if same(whole, m):
